@@ -9,6 +9,7 @@ CONSTANTS
   ChunkPts = {}
   ResetChoices <- AsIsOnly
   TamperTags <- AllTags
+  CacheChoices = {"none"}
   Concurrent = FALSE
   RecordHist = FALSE
 INVARIANTS TypeOK Agreement SuccessSound MutualGating ReplayRejected FaultNeverSuccess NoFaultClean Completeness PoolAccounting PoolClean
